@@ -112,6 +112,8 @@ type builtTrie struct {
 	prove func(keyBits string) (Proof, error)
 	// rangeProof returns the proof node set of GetRangeProof(left, right)
 	rangeProof func(leftBits, rightBits string) (Proof, error)
+	// proveMany calls Prove for every key, in order, on ONE node set that already holds `pre`
+	proveMany func(pre Proof, keys []string) (Proof, error)
 }
 
 func buildTrie(s *TrieSpec) (bt *builtTrie, err error) {
@@ -164,6 +166,16 @@ func buildTrie(s *TrieSpec) (bt *builtTrie, err error) {
 				ps := trie.NewProofNodeSet()
 				if err := t.GetRangeProof(&lk, &rk, ps); err != nil {
 					return nil, err
+				}
+				return fromLegacy(ps), nil
+			},
+			proveMany: func(pre Proof, keys []string) (Proof, error) {
+				ps := toLegacy(pre)
+				for _, kb := range keys {
+					k := bitsToFelt(kb)
+					if err := t.Prove(&k, ps); err != nil {
+						return nil, err
+					}
 				}
 				return fromLegacy(ps), nil
 			},
@@ -246,6 +258,16 @@ func buildTrie(s *TrieSpec) (bt *builtTrie, err error) {
 				ps := trie2.NewProofNodeSet()
 				if err := t.GetRangeProof(&lk, &rk, ps); err != nil {
 					return nil, err
+				}
+				return fromTrie2(ps), nil
+			},
+			proveMany: func(pre Proof, keys []string) (Proof, error) {
+				ps := toTrie2(pre)
+				for _, kb := range keys {
+					k := bitsToFelt(kb)
+					if err := t.Prove(&k, ps); err != nil {
+						return nil, err
+					}
 				}
 				return fromTrie2(ps), nil
 			},
